@@ -4,10 +4,10 @@ from vplib import runner, report
 
 class Stage:
     def __init__(self, name, builder, args=(), quick=1000, thorough=100000, tsan=False, env=None, timeout=600,
-                 workers=None, chunk=None, key_suffix=""):
+                 workers=None, chunk=None, key_suffix="", key_fn=None):
         self.name, self.builder, self.args = name, builder, list(args)
         self.quick, self.thorough, self.tsan, self.env, self.timeout = quick, thorough, tsan, env, timeout
-        self.workers, self.chunk, self.key_suffix = workers, chunk, key_suffix
+        self.workers, self.chunk, self.key_suffix, self.key_fn = workers, chunk, key_suffix, key_fn
 
 
 def run_stages(prop, tier, seed, scale, stages, rule, assumptions=(), level="exploration", extra_cov=None,
@@ -22,7 +22,7 @@ def run_stages(prop, tier, seed, scale, stages, rule, assumptions=(), level="exp
         want += n
         res = runner.run_cases(exe, seed, n, args=st.args, env=st.env, timeout=st.timeout, tsan=st.tsan,
                                workers=st.workers, chunk=st.chunk)
-        v.add_result(res, st.name, exe, st.key_suffix)
+        v.add_result(res, st.name, exe, st.key_suffix, st.key_fn)
         for h in res.hangs:
             h = dict(h)
             h["stage"] = st.name
@@ -72,7 +72,7 @@ def replay(rep, stages):
     keys = set()
     for x in res.violations:
         print("REPLAY", x["key"], x["detail"][:500].replace("\n", " | "))
-        keys.add(x["key"] + st.key_suffix)
+        keys.add((st.key_fn(x) if st.key_fn else x["key"]) + st.key_suffix)
     for x in res.hangs:
         keys.add("hang:" + st.name)
     for t in res.tsan_reports:
